@@ -655,6 +655,9 @@ namespace sim
 					m_udp_associate.send_to(boost::asio::buffer(buf, bytes_transferred)
 						, udp::endpoint(it->second, port), 0, err);
 					if (err) std::printf("send_to failed: %s\n", err.message().c_str());
+					// keep relaying
+					m_udp_associate.async_receive_from(boost::asio::buffer(m_udp_buffer)
+						, m_udp_from, 0, std::bind(&socks_connection::on_read_udp, this, std::placeholders::_1, std::placeholders::_2));
 					return;
 				}
 
